@@ -23,13 +23,14 @@ def firstDiff : List XRat → List XRat → Nat → Option Nat
   | x :: xs, y :: ys, i => if bitEq x y then firstDiff xs ys (i + 1) else some i
   | _, _, i => some i
 
-/-- both finite and within 2^-48 relative to the larger magnitude (a few units in the last place) -/
+/-- both finite and within 2^-40 (≈ 1e-12) of each other relative to max(1, |p|, |q|): rounding-level differences, the same discrete answer -/
 def lastBitsB : XRat → XRat → Bool
   | .fin p, .fin q =>
       let d := if p < q then q - p else p - q
       let ap := if p < 0 then -p else p
       let aq := if q < 0 then -q else q
-      decide (d * 281474976710656 ≤ (if ap < aq then aq else ap))
+      let m := if ap < aq then aq else ap
+      decide (d * 1099511627776 ≤ (if m < 1 then 1 else m))
   | x, y => bitEq x y
 
 /-- the two outputs have the same shape and differ only in last bits -/
